@@ -1455,7 +1455,7 @@ fn main() {
         std::process::exit(0);
     }
     let mut rep = Reporter::new("C09", "exploration", &args);
-    let cap_s: f64 = std::env::var("C09_CAP_S").ok().and_then(|s| s.parse().ok()).unwrap_or(args.tier.pick(300.0, 3000.0));
+    let cap_s: f64 = std::env::var("C09_CAP_S").ok().and_then(|s| s.parse().ok()).unwrap_or(args.tier.pick(300.0, 3000.0) * vcore::budget_scale());
     let t0 = std::time::Instant::now();
 
     let results = vcore::par_for(blocks.len(), vcore::ncores(), |bi| {
